@@ -36,6 +36,7 @@ type Run struct {
 	mu        sync.Mutex
 	start     time.Time
 	evals     int64
+	flushedAt int64
 	counters  map[string]int64
 	nt        map[uint64]struct{}
 	samples   []json.RawMessage
@@ -318,6 +319,16 @@ func (r *Run) Journal(c any, why string) {
 	dir := os.Getenv("VERIF_WORK")
 	if dir == "" {
 		return
+	}
+	// a crash loses everything not yet written: keep the partial result reasonably fresh
+	r.mu.Lock()
+	stale := r.evals-r.flushedAt >= 1000
+	if stale {
+		r.flushedAt = r.evals
+	}
+	r.mu.Unlock()
+	if stale {
+		r.Flush()
 	}
 	b, err := json.Marshal(c)
 	if err != nil {
